@@ -83,6 +83,17 @@ fn gen_instance(rng: &mut Rng) -> Scenario {
             sc.handlers.push(HandlerSpec::Element { sel: ":nth-of-type(2)".into(), ops: vec![ElOp::SetAttr("n".into(), "2".into())] });
         }
     }
+    if rng.chance(1, 6) {
+        // selectors that differ from those of other instances only in the case of a
+        // case-sensitive part (class, id, attribute value): anything shared between instances
+        // that is keyed too coarsely shows as a result that depends on who ran first
+        sc = Scenario::new(b"<p class=item>a</p><p class=Item>b</p><div id=main>c</div><div id=Main>d</div><i k=v>e</i><i k=V>f</i><b class=\"ITEM item\">g</b>".to_vec());
+        sc.handlers = vec![];
+        for _ in 0..rng.range(1, 3) {
+            let sel = rng.pick(&[".item", ".Item", ".ITEM", "#main", "#Main", "[k=\"v\"]", "[k=\"V\"]", " .item ", "P.item", "p.Item"]);
+            sc.handlers.push(HandlerSpec::Element { sel: sel.to_string(), ops: vec![ElOp::SetAttr("m".into(), "1".into())] });
+        }
+    }
     if rng.chance(1, 4) {
         sc.adjust_charset = true;
     }
